@@ -230,6 +230,9 @@ pub fn text(c: &Case) -> String {
             s += &format!("({} ^ {size})", from(&c.cons[0], first_override));
         } else if c.size == "inter-rev" {
             s += &format!("({size} ^ {})", from(&c.cons[0], first_override));
+        } else if c.size == "no-from" {
+            // the operands as a plain value constraint: no FROM anywhere, hence no permitted alphabet
+            s += &format!("({})", expr_text(&c.cons[0], &ops, first_override));
         } else if c.size == "split" {
             // the same expression with one FROM per operand: (FROM (a) | FROM (b))
             let e = &c.cons[0];
@@ -458,6 +461,14 @@ impl Prop for C15 {
                     }
                 }
             }
+            // string values as a value constraint, without FROM: single strings and unions of strings (operands 0..3)
+            for e in e1.iter().chain(e2.iter()) {
+                if e.operands.iter().all(|o| *o < 4) && e.ops.iter().all(|o| *o == 'U') {
+                    for ctx in ["assign", "component"] {
+                        out.push(Case { ty: ty.into(), cons: vec![e.clone()], size: "no-from".into(), ctx: ctx.into() });
+                    }
+                }
+            }
             // a FROM string with a character outside the type's own alphabet: must be rejected, or at least never emitted
             if ty != "Universal" {
                 for ctx in ["assign", "component"] {
@@ -632,6 +643,13 @@ impl Prop for C15 {
         // bogus value() bound on a string type
         if attrs.iter().any(|a| a.has("value")) {
             discs.push(Disc::new(format!("alphabet|bogus-value-bound|ctx={}|known-multiplier={}", c.ctx, b.is_some()), format!("a character string carries a value(..) bound\n{full}")));
+        }
+        if c.size == "no-from" {
+            // a value constraint is not a permitted-alphabet constraint (and not PER-visible): no alphabet annotation
+            if attrs.iter().any(|a| a.has("from")) {
+                discs.push(Disc::new(format!("alphabet|value-constraint-without-FROM|ctx={}|kind=unexpected-from", c.ctx), format!("a string value constraint (no FROM) yields a permitted-alphabet annotation\n{full}")));
+            }
+            return CaseResult { discs, nontrivial: true, outcome: "ok:no-from".into(), skipped: None };
         }
         let b = match b {
             None => {
